@@ -500,7 +500,15 @@ Step(ev) ==
           [] c = "write_basis" -> R(Touched(s, "C14"), {})
           [] c \in {"write_prob"} -> R(Touched(s, "C08"), {})
           [] c \in {"get_basis", "get_basis_array", "binv_row", "tableau_row", "basis_order"} -> R(Touched(s, "C06"), {})
-          [] c \in {"load_basis", "load_basis_array", "read_and_load_basis"} -> IF ev.rval = 0 THEN R(Mutated(s), {}) ELSE R(Failed(s, "C07"), {})
+          [] c \in {"load_basis", "load_basis_array"} -> IF ev.rval = 0 THEN R(Mutated(s), {}) ELSE R(Failed(s, "C07"), {})
+          [] c = "read_and_load_basis" ->
+               \* a basis file the reader ACCEPTS must define a basis of the problem: one basic variable per row (C11: a returned basis is consistent)
+               IF ev.rval # 0 THEN R(Failed(s, "C07"), {})
+               ELSE R(Mutated(s), IF s.sync /\ "cstat" \in DOMAIN ev /\ "rstat" \in DOMAIN ev /\ ~S!BasisShapeOK(L, ev.cstat, ev.rstat)
+                                  THEN {V(ev, {"C11", "C14"}, "the basis accepted from a file does not have exactly one basic variable per row: " \o ToString(<<ev.cstat, ev.rstat>>))} ELSE {})
+          [] c = "read_basis" ->
+               R(s, IF s.sync /\ ev.ok = 1 /\ "cstat" \in DOMAIN ev.bas /\ "rstat" \in DOMAIN ev.bas /\ ~S!BasisShapeOK(L, ev.bas.cstat, ev.bas.rstat)
+                    THEN {V(ev, {"C11", "C14"}, "the basis read from a file does not have exactly one basic variable per row: " \o ToString(<<ev.bas.cstat, ev.bas.rstat>>))} ELSE {})
           [] c \in {"basis_optimalstatus", "basis_dualstatus", "verify"} ->
                IF ~s.sync \/ IsNone(slot[ev.b]) THEN R(Mutated(s), {})
                ELSE
